@@ -477,6 +477,112 @@ theorem pathsOk_some (T : Table) (k : LockKind) (nm : String) (ls : List (List L
       simp only [hi, hx, Bool.and_eq_true, List.all_eq_true] at h2
       exact ⟨m, x, rfl, hx, h2.1, by simpa using h2.2 l hl⟩
 
+/-! ## histories over the whole alphabet: what holds across `reset` -/
+
+theorem historyEvs_append (cfg : Cfg) : ∀ (a : List Op) (s : State) (b : List Op),
+    historyEvs cfg s (a ++ b) = historyEvs cfg s a ++ historyEvs cfg (run cfg s a) b := by
+  intro a
+  induction a with
+  | nil => intro s b; simp [historyEvs, run]
+  | cons x xs ih => intro s b; simp only [List.cons_append, historyEvs, run, ih, List.append_assoc]
+
+/-- the same lifecycle with `r` more renewals on its counter (the counter is written, never read, by the nine methods) -/
+def addRenewals (r : Nat) (s : State) : State := { s with renewals := s.renewals + r }
+
+/-- the renewal counter influences nothing: every call does the same (state, return value, callbacks, lock path) -/
+theorem step_addRenewals (cfg : Cfg) (s : State) (op : Op) (r : Nat) :
+    (step cfg (addRenewals r s) op).st = addRenewals r (step cfg s op).st ∧
+    (step cfg (addRenewals r s) op).ret = (step cfg s op).ret ∧
+    (step cfg (addRenewals r s) op).evs = (step cfg s op).evs ∧
+    (step cfg (addRenewals r s) op).lock = (step cfg s op).lock := by
+  cases op with
+  | start => simp only [step, start]; by_cases h : s.phase = .nascent <;> simp [addRenewals, started, h]
+  | tick c =>
+    obtain ⟨ph, len, errs, ops, ren, rsn, st0, la, now⟩ := s
+    cases ph <;> simp [step, tick, addRenewals, started, enterSenescence] <;> split <;> simp
+  | err =>
+    obtain ⟨ph, len, errs, ops, ren, rsn, st0, la, now⟩ := s
+    cases ph <;> simp [step, recordError, addRenewals, enterSenescence] <;> (repeat' split) <;> simp
+  | hb => simp [step, heartbeat, addRenewals]
+  | timeouts =>
+    obtain ⟨ph, len, errs, ops, ren, rsn, st0, la, now⟩ := s
+    cases ph <;> simp [step, checkTimeouts, addRenewals, enterSenescence] <;> (repeat' split) <;> simp
+  | renew n b =>
+    obtain ⟨ph, len, errs, ops, ren, rsn, st0, la, now⟩ := s
+    cases ph <;> simp [step, renew, addRenewals] <;> (repeat' split) <;> simp <;> omega
+  | apo => simp only [step, apoptosis]; by_cases h : s.phase = .terminated <;> simp [addRenewals, h]
+  | term => simp [step, terminate, addRenewals]
+  | reset => simp [step, reset, addRenewals]
+  | adv us => simp [step, addRenewals]
+
+theorem run_addRenewals (cfg : Cfg) (r : Nat) : ∀ (ops : List Op) (s : State),
+    run cfg (addRenewals r s) ops = addRenewals r (run cfg s ops) ∧
+    historyEvs cfg (addRenewals r s) ops = historyEvs cfg s ops := by
+  intro ops
+  induction ops with
+  | nil => intro s; simp [run, historyEvs]
+  | cons op ops ih =>
+    intro s
+    have h := step_addRenewals cfg s op r
+    simp only [run, historyEvs, h.1, h.2.2.1, (ih _).1, (ih _).2, and_self]
+
+/-- what `reset` leaves behind: a lifecycle constructed at that moment, with the old renewal counter -/
+theorem reset_state (cfg : Cfg) (s : State) :
+    (step cfg s .reset).st = addRenewals s.renewals (run cfg (init cfg) [.adv s.now]) ∧ (step cfg s .reset).evs = [] := by
+  simp [step, reset, addRenewals, run, init]
+
+/-- split a history at its last `reset`: (everything up to and including it, everything after it) -/
+def splitEpoch : List Op → List Op × List Op
+  | [] => ([], [])
+  | op :: ops =>
+    if (splitEpoch ops).1 = [] then
+      (if op = .reset then ([.reset], (splitEpoch ops).2) else ([], op :: (splitEpoch ops).2))
+    else (op :: (splitEpoch ops).1, (splitEpoch ops).2)
+
+theorem splitEpoch_append : ∀ ops : List Op, (splitEpoch ops).1 ++ (splitEpoch ops).2 = ops := by
+  intro ops
+  induction ops with
+  | nil => rfl
+  | cons op ops ih =>
+    simp only [splitEpoch]
+    split
+    · rename_i h
+      rw [h] at ih
+      split <;> simp_all
+    · simp [ih]
+
+theorem splitEpoch_no_reset : ∀ ops : List Op, ∀ op ∈ (splitEpoch ops).2, op ≠ .reset := by
+  intro ops
+  induction ops with
+  | nil => intro op h; simp [splitEpoch] at h
+  | cons x xs ih =>
+    intro op h
+    simp only [splitEpoch] at h
+    split at h
+    · split at h
+      · exact ih op h
+      · simp only [List.mem_cons] at h
+        rcases h with rfl | h
+        · assumption
+        · exact ih op h
+    · exact ih op h
+
+theorem splitEpoch_ends_with_reset : ∀ ops : List Op,
+    (splitEpoch ops).1 = [] ∨ ∃ pre, (splitEpoch ops).1 = pre ++ [.reset] := by
+  intro ops
+  induction ops with
+  | nil => left; rfl
+  | cons x xs ih =>
+    simp only [splitEpoch]
+    split
+    · split
+      · right; exact ⟨[], by simp_all⟩
+      · left; rfl
+    · rename_i h
+      rcases ih with h0 | ⟨pre, hp⟩
+      · exact absurd h0 h
+      · right; exact ⟨x :: pre, by simp [hp]⟩
+
 /-! ## several lifecycles alive at once -/
 
 theorem run_append (cfg : Cfg) : ∀ (a : List Op) (s : State) (b : List Op),
